@@ -332,6 +332,55 @@ def report(ctx, events, r, bad):
         ctx.sample({"recorded_event": {k: e[k] for k in ("kind", "x", "rd", "enc", "dec") if k in e}})
 
 
+def _corrupt_first_leaf(node):
+    """change ONE logged value of an abstract tree in place: the first number leaf (+1) or string leaf; returns a description"""
+    j = node.get("j")
+    if j in ("int", "float") and node["d"] > 0:
+        old = (node["n"], node["d"])
+        node["n"] += node["d"]
+        return f"number {old[0]}/{old[1]} -> {node['n']}/{node['d']}"
+    if j == "list":
+        for x in node["items"]:
+            w = _corrupt_first_leaf(x)
+            if w:
+                return w
+    if j == "bag":
+        for x in node["elems"]:
+            w = _corrupt_first_leaf(x)
+            if w:
+                return w
+    if j == "obj":
+        for k, x in zip(node["keys"], node["vals"]):
+            if k in ("dtype", "shape", "_is_numpy_array", "_is_set", "name"):
+                continue
+            w = _corrupt_first_leaf(x)
+            if w:
+                return w
+    return None
+
+
+def negative_control(ctx, events, bad):
+    """Liveness of the binding: ONE logged value of one conforming recorded event is corrupted (a number the library
+    wrote into its JSON text); the same Trace_Serialize.tla must reject it in a separate small TLC run."""
+    for i, e in enumerate(events, 1):
+        if i in bad or e.get("enc") != "ok" or e.get("dec") != "ok" or not e.get("tree"):
+            continue
+        probe = json.loads(json.dumps(e))
+        what = _corrupt_first_leaf(probe["tree"])
+        if not what:
+            continue
+        r, b = validate_chunk([probe])
+        if b.get(1) != "Encode":
+            raise tlc.TlcError(f"trace validation did not report a corrupted logged JSON value ({what} in the text of "
+                               f"recorded {e['kind']} event {i}; TLC said {b.get(1)!r}) (binding not live)")
+        ctx.notes["trace_negative_control"] = (f"recorded {e['kind']} event {i}: logged JSON {what} rejected by "
+                                               f"Trace_Serialize.tla (clause Encode)")
+        ctx.states += r.distinct
+        ctx.transitions += r.generated
+        return
+    raise tlc.TlcError("no conforming recorded event with a numeric value to corrupt (negative control impossible)")
+
+
 def run(ctx, events, fut):
     r, bad = fut
     report(ctx, events, r, bad)
